@@ -186,16 +186,16 @@ func judgeC02(v *spec.View, in, out string, dom bool) (sig, what string) {
 				if sig != "" || n.Type != html.ElementNode {
 					return
 				}
-				el := strings.ToLower(n.Data)
+				el := obs.ASCIILower(n.Data)
 				for _, a := range n.Attr {
 					key := a.Key
 					if a.Namespace != "" {
 						key = a.Namespace + ":" + a.Key
 					}
-					ok, why := attrJustified(v, el, html.Attribute{Key: strings.ToLower(key), Val: a.Val}, nil)
+					ok, why := attrJustified(v, el, html.Attribute{Key: obs.ASCIILower(key), Val: a.Val}, nil)
 					if !ok {
 						// the tree builder may re-case or re-namespace names in foreign content; judge the plain name too
-						ok2, _ := attrJustified(v, el, html.Attribute{Key: strings.ToLower(a.Key), Val: a.Val}, nil)
+						ok2, _ := attrJustified(v, el, html.Attribute{Key: obs.ASCIILower(a.Key), Val: a.Val}, nil)
 						if !ok2 && !(v.ParseableURLs && isURLAttr(el, a.Key)) {
 							sig, what = "dom-attr", "tree builder ("+ctx+"): "+why
 						}
